@@ -43,6 +43,11 @@ theorem overwrite_fields (c : Config) (s : State) (t : Nat) (msg : Str) :
   cases hk : c.kind <;> simp [secClear_fields, secWrite_fields]
 
 
+theorem overwrite_displayedMax (c : Config) (s : State) (t : Nat) (msg : Str) :
+    (overwrite c s t msg).1.displayedMax = some s.max := by
+  unfold overwrite
+  cases hk : c.kind <;> simp [secClear_fields, secWrite_fields]
+
 theorem secClear_percent (c : Config) (s : State) (n : Nat) : (secClear c s n).1.percent = s.percent := by
   unfold secClear; split <;> simp
 
@@ -204,10 +209,22 @@ theorem setProgress_bounded (c : Config) (s : State) (t : Nat) (k : Int) :
 /-- `finish()` first gives a bar without a maximum the current step as its maximum -/
 def finished (s : State) : State := if s.max = 0 then { s with max := s.step } else s
 
+/-- the proof obligation tied to the source: the guard of `finish()` compares `_displayed_max` -/
+theorem cmp_true : Gen.C16.finishComparesDisplayedMax = true := rfl
+
+theorem finishWith_eq (b : Bool) (c : Config) (s : State) (t : Nat) :
+    finishWith b c s t =
+      if (finished s).step = (finished s).max ∧ c.overwrite = false ∧
+          (finished s).displayedStep = some (finished s).step ∧
+          (b = true → (finished s).displayedMax = some (finished s).max)
+      then ⟨finished s, [], none, none⟩
+      else setProgress c (finished s) t ((finished s).max : Int) := rfl
+
 theorem finish_eq (c : Config) (s : State) (t : Nat) :
     finish c s t =
       if (finished s).step = (finished s).max ∧ c.overwrite = false ∧
-          (finished s).displayedStep = some (finished s).step
+          (finished s).displayedStep = some (finished s).step ∧
+          (Gen.C16.finishComparesDisplayedMax = true → (finished s).displayedMax = some (finished s).max)
       then ⟨finished s, [], none, none⟩
       else setProgress c (finished s) t ((finished s).max : Int) := rfl
 
@@ -683,17 +700,17 @@ def lastFrame (lf : Option Frame) : List Event → Option Frame
 
 def PercentOK (f : Frame) : Prop := f.percent = (if f.max = 0 then 0 else f.current * 100 / f.max)
 
-/-- on an output without overwriting: the step recorded as displayed is the step of the last frame,
-and that frame shows the present maximum unless it was drawn while there was none -/
+/-- on an output without overwriting: the step and the maximum recorded as displayed are those
+of the last frame -/
 def Shown (s : State) (lf : Option Frame) : Prop :=
-  ∀ d, s.displayedStep = some d →
-    ∃ f, lf = some f ∧ f.current = d ∧ (f.max = s.max ∨ f.max = 0) ∧ PercentOK f
+  ∀ d dm, s.displayedStep = some d → s.displayedMax = some dm →
+    ∃ f, lf = some f ∧ f.current = d ∧ f.max = dm ∧ PercentOK f
 
 theorem display_establishes (c : Config) (s : State) (t : Nat) (hq : c.quiet = false)
     (herr : (display c s t).err = none) :
     ∃ f, (display c s t).frame = some f ∧ f.current = s.step ∧ f.max = s.max ∧ PercentOK f ∧
-      (display c s t).st.displayedStep = some s.step ∧ (display c s t).st.max = s.max ∧
-      (display c s t).st.step = s.step := by
+      (display c s t).st.displayedStep = some s.step ∧ (display c s t).st.displayedMax = some s.max ∧
+      (display c s t).st.max = s.max ∧ (display c s t).st.step = s.step := by
   cases hb : buildLine c (ensureFormat c s) t with
   | error e => rw [display_error c s t hq e hb] at herr; simp at herr
   | ok text =>
@@ -701,30 +718,22 @@ theorem display_establishes (c : Config) (s : State) (t : Nat) (hq : c.quiet = f
       rw [display_ok c s t hq text hb]
     have hok := display_frameOK c s t _ hfr
     have hsm := display_step_max c s t
-    refine ⟨_, hfr, ?_, ?_, hok.2.2, ?_, hsm.2, hsm.1⟩
+    refine ⟨_, hfr, ?_, ?_, hok.2.2, ?_, ?_, hsm.2, hsm.1⟩
     · simp [frameOf, ensureFormat_fields]
     · simp [frameOf, ensureFormat_fields]
     · rw [display_ok c s t hq text hb]; simp [overwrite_fields, ensureFormat_fields]
+    · rw [display_ok c s t hq text hb]; simp [overwrite_displayedMax, ensureFormat_fields]
 
 theorem display_shown (c : Config) (s : State) (t : Nat) (lf : Option Frame) (hq : c.quiet = false)
     (herr : (display c s t).err = none) :
     Shown (display c s t).st (lastOf (display c s t).frame lf) := by
-  obtain ⟨f, hf, h1, h2, h3, h4, h5, _⟩ := display_establishes c s t hq herr
-  intro d hd
+  obtain ⟨f, hf, h1, h2, h3, h4, h5, _, _⟩ := display_establishes c s t hq herr
+  intro d dm hd hdm
   rw [h4] at hd
+  rw [h5] at hdm
   cases hd
-  exact ⟨f, by rw [hf]; rfl, h1, Or.inl (by rw [h5]; exact h2), h3⟩
-
-theorem newMax_of_not_atMax (c : Config) (s : State) (t : Nat) (k : Int)
-    (h : decide' c s t (newMax s k) k.toNat ≠ .atMax) : newMax s k = s.max := by
-  unfold newMax at *
-  split
-  · exfalso
-    apply h
-    rw [decide_atMax_iff]
-    rename_i hc
-    simp [hc]
-  · rfl
+  cases hdm
+  exact ⟨f, by rw [hf]; rfl, h1, h2, h3⟩
 
 theorem setProgress_shown (c : Config) (s : State) (t : Nat) (k : Int) (lf : Option Frame)
     (hq : c.quiet = false) (herr : (setProgress c s t k).err = none) (hJ : Shown s lf) :
@@ -732,29 +741,13 @@ theorem setProgress_shown (c : Config) (s : State) (t : Nat) (k : Int) (lf : Opt
   rw [setProgress_eq] at herr ⊢
   cases hd : decide' c s t (newMax s k) k.toNat
   · simp only [hd] at herr ⊢; exact display_shown c _ t lf hq herr
-  · have hm := newMax_of_not_atMax c s t k (by rw [hd]; simp)
-    simp only
-    intro d hdd
-    obtain ⟨f, hf1, hf2, hf3, hf4⟩ := hJ d hdd
-    exact ⟨f, hf1, hf2, by simpa [progressed, hm] using hf3, hf4⟩
+  · exact hJ
   · simp only [hd] at herr ⊢; exact display_shown c _ t lf hq herr
-  · have hm := newMax_of_not_atMax c s t k (by rw [hd]; simp)
-    simp only
-    intro d hdd
-    obtain ⟨f, hf1, hf2, hf3, hf4⟩ := hJ d hdd
-    exact ⟨f, hf1, hf2, by simpa [progressed, hm] using hf3, hf4⟩
+  · exact hJ
 
 theorem finished_shown (s : State) (lf : Option Frame) (hJ : Shown s lf) : Shown (finished s) lf := by
   unfold finished
-  split
-  · rename_i h0
-    intro d hd
-    obtain ⟨f, hf1, hf2, hf3, hf4⟩ := hJ d hd
-    refine ⟨f, hf1, hf2, Or.inr ?_, hf4⟩
-    rcases hf3 with h | h
-    · rw [h, h0]
-    · exact h
-  · exact hJ
+  split <;> exact hJ
 
 theorem step_shown (c : Config) (s : State) (op : Op) (t : Nat) (lf : Option Frame)
     (hq : c.quiet = false) (how : c.overwrite = false) (herr : (step c s op t).err = none)
@@ -775,22 +768,19 @@ theorem step_shown (c : Config) (s : State) (op : Op) (t : Nat) (lf : Option Fra
       exact setProgress_shown c _ t _ lf hq herr (finished_shown s lf hJ)
   | setMessage text => exact hJ
 
-/-- what `finish()` leaves behind -/
+/-- what `finish()` leaves behind: the last frame shows current = max = the maximum -/
 theorem finish_last (c : Config) (s : State) (t : Nat) (lf : Option Frame) (hq : c.quiet = false)
     (herr : (finish c s t).err = none) (hJ : c.overwrite = false → Shown s lf) :
     (finish c s t).st.step = (finish c s t).st.max ∧
     ∃ f, lastOf (finish c s t).frame lf = some f ∧ f.current = (finish c s t).st.max ∧
-      (f.max = (finish c s t).st.max ∨ (f.max = 0 ∧ c.overwrite = false)) ∧ PercentOK f ∧
+      f.max = (finish c s t).st.max ∧ PercentOK f ∧
       (c.overwrite = true → (finish c s t).frame = some f) := by
   rw [finish_eq] at herr ⊢
   split
   · rename_i hc
-    obtain ⟨h1, how, h3⟩ := hc
-    obtain ⟨f, hf1, hf2, hf3, hf4⟩ := finished_shown s lf (hJ how) _ h3
-    refine ⟨h1, f, by simpa [lastOf] using hf1, by rw [hf2]; exact h1, ?_, hf4, by simp [how]⟩
-    rcases hf3 with h | h
-    · exact Or.inl h
-    · exact Or.inr ⟨h, how⟩
+    obtain ⟨h1, how, h3, h4⟩ := hc
+    obtain ⟨f, hf1, hf2, hf3, hf4⟩ := finished_shown s lf (hJ how) _ _ h3 (h4 cmp_true)
+    exact ⟨h1, f, by simpa [lastOf] using hf1, by rw [hf2]; exact h1, hf3, hf4, by simp [how]⟩
   · rename_i hc
     rw [if_neg hc] at herr
     have hnm : newMax (finished s) ((finished s).max : Int) = (finished s).max := by
@@ -800,11 +790,10 @@ theorem finish_last (c : Config) (s : State) (t : Nat) (lf : Option Frame) (hq :
       rw [decide_atMax_iff, hnm]; simp
     rw [setProgress_eq, hd] at herr ⊢
     simp only at herr ⊢
-    obtain ⟨f, hf, h1, h2, h3, _, h5, h6⟩ := display_establishes c _ t hq herr
-    refine ⟨by rw [h5, h6]; simp [progressed, hnm], f, by rw [hf]; rfl, ?_, Or.inl ?_, h3, fun _ => hf⟩
+    obtain ⟨f, hf, h1, h2, h3, _, _, h5, h6⟩ := display_establishes c _ t hq herr
+    refine ⟨by rw [h5, h6]; simp [progressed, hnm], f, by rw [hf]; rfl, ?_, ?_, h3, fun _ => hf⟩
     · rw [h1, h5]; simp [progressed, hnm]
     · rw [h2, h5]
-
 
 theorem run_append (c : Config) (a b : List (Op × Nat)) :
     ∀ s, run c s (a ++ b) = run c s a ++ run c (runState c s a) b := by
